@@ -59,7 +59,7 @@ def run(ctx: Ctx):
     cs = dc.consts(MaxId=7, MaxOps=2, Prios=[1, 5], RelDelays=[0, 1, 2], AbsTimes=[], BadKinds=["reinit"], Cmds=HIST, Bounds=[1, 2, 3],
                    MaxCmds=9, MaxInits=3, EndT=4, WarmT=2, AllowFaults=True)
     for beh in dc.simulate(ctx, "DEVS re-initialisation", cs, num=ctx.pick(200, 2000), depth=70, seed=ctx.seed + 60):
-        conc = dd.CONCS_OFF[bi % len(dd.CONCS_OFF)]
+        conc = dd.CONCS_STATS[bi % len(dd.CONCS_STATS)]
         ninit = sum(1 for _, _, s in beh if s["op"]["a"] == "Initialize")
         tr = dc.replay(ctx, beh, conc, cs, f"behaviour {bi} [{ninit} initialisations]", model_factory=ds.StatModel)
         ctx.evaluations += 1
@@ -76,7 +76,7 @@ def run(ctx: Ctx):
         return          # the run already fails: skip the random runs (a broken tree makes them slow)
     n = ctx.pick(200, 2500)
     for i in range(n):
-        conc = dd.CONCS_OFF[i % len(dd.CONCS_OFF)]
+        conc = dd.CONCS_STATS[i % len(dd.CONCS_STATS)]
         end_t, warm_t = ctx.rng.choice([(4, 2), (6, 0)])
         strat = "pause"
         ctl = dc.random_run(ctx, ctx.rng, conc, end_t, warm_t, strat, cmds=HIST, ncmds=ctx.rng.choice([0, 2, 4, 7]),
